@@ -109,6 +109,17 @@ def runPure {M S I O : Type} (h : Handler M S I O) (m : M) : S → List I → S 
     let rest := runPure h m r.2.1 is
     (rest.1, r.2.2 :: rest.2)
 
+/-- two replicas: possibly different binaries of the same code (`h₁`, `h₂`: e.g. different map-iteration schedules), own
+construction-time memory -/
+structure Replica (M S I O : Type) where
+  h : Handler M S I O
+  m₀ : M
+  evs : List (Ev I)
+
+def Replica.run {M S I O : Type} (r : Replica M S I O) (s : S) : S × List O :=
+  let res := runEvs r.h r.m₀ ⟨r.m₀, s⟩ r.evs
+  (res.1.st, res.2)
+
 /-! ## the shape of the seeded defect: a keeper-level cache whose hit is cheaper than its miss -/
 
 /-- memory = the aliases resolved so far; output = gas: 1 on a hit, 10 on a miss (the answer itself is the same) -/
